@@ -168,6 +168,13 @@ def run_case(concepts, case, spec):
             if rng.random() < .3:
                 arg.reverse()
         COL.count('mutated_argument_sequences')
+    if hash(gen.table_key(case)) % 12 == 0:
+        def queries(c):
+            for sub in ([], list(c.objects[:1]), list(c.objects[-2:]), list(c.objects)):
+                call(c.intension, sub)
+            for sub in ([], list(c.properties[:1]), list(c.properties)):
+                call(c.extension, sub)
+        common.registry_history(concepts, case, rng, queries)
     # session: an older live context (often with the very same labels) is queried
     # again after the new one was built: class-level state must not leak across.
     old = POOL.older(rng)
